@@ -1,3 +1,5 @@
 ---- MODULE MC_Versions ----
 EXTENDS Versions, Versions_Gen
+\* exported for the harness (printed once when TLC evaluates the assumption)
+ASSUME PrintT(<<"TERMINALS", Terminals>>)
 ====
